@@ -248,7 +248,9 @@ var hostileValues = func() []interface{} {
 		deep = []interface{}{deep}
 	}
 	return []interface{}{nil, true, 0, -1, 1e308, "", "x", []interface{}{}, map[string]interface{}{}, []interface{}{[]interface{}{}}, map[string]interface{}{"a": map[string]interface{}{}},
-		strings.Repeat("A", 1<<16), deep}
+		strings.Repeat("A", 1<<16), deep,
+		// member names related by prefix / empty / non-ASCII, and extreme numbers: valid JSON the canonicalizer must digest
+		map[string]interface{}{"": 0, "a": 1, "ab": 2, "abc": 3, "id": "x", "idx": "y", "\u00e9": 4, "\U0001F600": 5, "n": 1e21, "m": 5e-324, "k": -0.0}}
 }()
 
 // corruptions enumerates variants of v with each position replaced by each hostile value (or removed).
@@ -269,7 +271,7 @@ func corruptions(v interface{}, limit int, r *fw.Rand) [][]byte {
 				continue
 			}
 			b, err := json.Marshal(c)
-			if err != nil || (hi >= 11 && len(b) > 1<<17) {
+			if err != nil || ((hi == 11 || hi == 12) && len(b) > 1<<17) {
 				continue
 			}
 			out = append(out, b)
@@ -336,6 +338,39 @@ func runC19(r *fw.Runner) {
 		for b := 0; b < n; b++ {
 			r.Case("corrupt-"+kind, func(c *fw.Case) { c19Corrupt(c, get(c), kind, r.N(60, 120)) })
 		}
+	}
+	// ---- valid but unusual JSON (random member names incl. prefix-related / empty / all Unicode planes, every number class)
+	for b := 0; b < r.N(10, 300); b++ {
+		r.Case("unusual-valid-json", func(c *fw.Case) {
+			e := get(c)
+			for i := 0; i < 10; i++ {
+				obj := gen.RandObject(c.Rng, 3)
+				obj["k"], obj["kk"], obj["kkk"] = 1, 2, 3
+				raw := gen.Spell(c.Rng, obj, gen.AllSpell)
+				c.Sig("unusual", len(obj)%5)
+				c19Call(c, "canonicalizer.MarshalCanonical(bytes)", "unusual-json", raw, func() { canonicalizer.MarshalCanonical(raw) })
+				c19Call(c, "canonicalizer.MarshalCanonical(value)", "unusual-json", raw, func() { canonicalizer.MarshalCanonical(obj) })
+				c19Call(c, "hashing", "unusual-json", raw, func() { hashing.CalculateModelMultihash(obj, 18); hashing.CalculateModelMultihash(raw, 19) })
+				c19Call(c, "patch.PatchesFromDocument", "unusual-json", raw, func() { patch.PatchesFromDocument(string(raw)) })
+				c19Call(c, "docvalidator", "unusual-json", raw, func() { docvalidator.New().IsValidOriginalDocument(raw) })
+				// inside operations: as anchor origin (suffix data / signed data) and as ietf value, correctly hashed and signed
+				h := &histCtx{r: c.Rng, proto: e.loose.P, code: 18, keyType: gen.Ed25519, hasIETF: true}
+				ps := []interface{}{gen.PJSON(op("add", "/unusual", "value", obj))}
+				cs := planStep(h, 'c', "valid", 10, nil, func(h *histCtx, s *opStep) { s.Spec.Patches = ps; s.Spec.AnchorOrigin = obj })
+				cb := cs.Built.Request
+				if len(cb) < 1<<16 {
+					c19Call(c, "Parser.Parse", "unusual-json/create", cb, func() { e.loose.Parser.Parse("did:ion", cb) })
+					c19Call(c, "Applier.Apply", "unusual-json/create", cb, func() { e.loose.Applier.Apply(anchoredOf(cs, cs.Built.Suffix), &protocol.ResolutionModel{}) })
+					did := "did:ion:" + cs.Built.Suffix + ":" + oracle.B64(cb)
+					c19Call(c, "Parser.ParseDID", "unusual-json/long-form", []byte(did), func() { e.loose.Parser.ParseDID("did:ion", did) })
+					rs := planStep(h, 'r', "valid", 20, nil, func(h *histCtx, s *opStep) { s.Spec.Patches = ps; s.Spec.AnchorOrigin = obj })
+					rb := rs.Built.Request
+					c19Call(c, "Parser.Parse", "unusual-json/recover", rb, func() { e.loose.Parser.Parse("did:ion", rb) })
+					c19Call(c, "Applier.Apply", "unusual-json/recover", rb, func() { e.loose.Applier.Apply(anchoredOf(rs, h.ch.Suffix), e.state) })
+				}
+				e.feedPatch(c, "unusual-json", gen.ToJSON(gen.PJSON(op("add", "/unusual", "value", obj))))
+			}
+		})
 	}
 	// ---- (d) arbitrary bytes and truncations
 	for b := 0; b < r.N(20, 600); b++ {
